@@ -153,6 +153,8 @@ def handles():
         parts.append(fns.replace('%SCOPE%', scope).replace('%BUFSCOPE%', bufscope).replace('%SFX%', sfx))
     parts.append('\n} // impl Buf\n')
     parts.extend(rts)
+    with open(os.path.join(UNITS, 'U_handles.window.tpl')) as f:
+        parts.append(f.read())
     with open(os.path.join(UNITS, 'U_handles.tail.tpl')) as f:
         parts.append(f.read())
     parts.append('\n} // verus!\nfn main() {}\n')
